@@ -471,7 +471,15 @@ fn gen_raw_shape(rng: &mut Rng, ox: i64, oy: i64) -> String {
         2 => { let a = rng.range(6, 16); let w = rng.range(1, a / 2 - 1).max(1); format!("(polygon {})", fmt_shape_pts(&t(vec![(0, 0), (0, a), (w, a), (w, w), (a - w, w), (a - w, a), (a, a), (a, 0)]))) } // U
         3 => { let a = rng.range(4, 16); let w = rng.range(1, a - 1).max(1); format!("(polygon {})", fmt_shape_pts(&t(vec![(0, 0), (a, 0), (a, w), (w, w), (w, a), (0, a)]))) } // L
         4 => { let r = rng.range(2, 8); let c = rng.range(1, r); format!("(polygon {})", fmt_shape_pts(&t(vec![(c, 0), (r, 0), (r + c, c), (r + c, r), (r, r + c), (c, r + c), (0, r), (0, c)]))) } // 45°
-        5 => format!("(polygon {})", fmt_shape_pts(&t(vec![(0, 0), (rng.range(6, 16), rng.range(1, 5)), (rng.range(1, 5), rng.range(8, 16))]))),
+        5 => if rng.coin() { format!("(polygon {})", fmt_shape_pts(&t(vec![(0, 0), (rng.range(6, 16), rng.range(1, 5)), (rng.range(1, 5), rng.range(8, 16))]))) } else {
+            // four-vertex shapes that are NOT rectangles: right trapezoids (three axis-aligned edges) and a
+            // general quadrilateral, from every start vertex and in both orientations
+            let (w, h, d) = (rng.range(6, 16), rng.range(6, 16), rng.range(2, 5));
+            let mut q = match rng.below(3) { 0 => vec![(0, 0), (w, 0), (w, h), (d, h)], 1 => vec![(0, 0), (0, h), (w, h), (w, d)], _ => vec![(0, 0), (w, 1), (w - 1, h), (1, h - 1)] };
+            if rng.coin() { q.reverse(); }
+            q.rotate_left(rng.below(4) as usize);
+            format!("(polygon {})", fmt_shape_pts(&t(q)))
+        },
         _ => { // Manhattan path, >= 2 points
             let mut v = vec![(rng.range(0, 4), rng.range(0, 4))];
             let mut horiz = rng.coin();
@@ -555,6 +563,16 @@ pub fn gen_gds_lib(rng: &mut Rng, malform: u64, big: bool) -> GdsLibrary {
                     if malform == 4 && k == 0 { pts.clear(); }
                     s.elems.push(GdsElement::GdsBoundary(GdsBoundary { layer, datatype: dt, xy: pts.iter().map(|p| GdsPoint::new(p.0, p.1)).collect(), ..Default::default() }));
                     label_at = Some(match rng.below(4) { 0 => ((x0 + x1) / 2, (y0 + y1) / 2), 1 => (x0, y0), 2 => (x1, (y0 + y1) / 2), _ => (x1 + 3, y1 + 3) });
+                }
+                2 if rng.coin() => {
+                    // right trapezoid / general quadrilateral: four vertices, not a rectangle, any start vertex and direction
+                    let (w, h, d) = (rng.range(6, 16) as i32, rng.range(6, 16) as i32, rng.range(2, 5) as i32);
+                    let mut q = match rng.below(3) { 0 => vec![(0, 0), (w, 0), (w, h), (d, h)], 1 => vec![(0, 0), (0, h), (w, h), (w, d)], _ => vec![(0, 0), (w, 1), (w - 1, h), (1, h - 1)] };
+                    if rng.coin() { q.reverse(); }
+                    q.rotate_left(rng.below(4) as usize);
+                    q.push(q[0]);
+                    s.elems.push(GdsElement::GdsBoundary(GdsBoundary { layer, datatype: dt, xy: q.iter().map(|p| GdsPoint::new(p.0 + ox, p.1 + oy)).collect(), ..Default::default() }));
+                    label_at = Some((ox + w / 2, oy + h / 2));
                 }
                 2 => { let a = rng.range(6, 16) as i32; let w = 2; let pts = vec![(0, 0), (0, a), (w, a), (w, w), (a - w, w), (a - w, a), (a, a), (a, 0), (0, 0)];
                     s.elems.push(GdsElement::GdsBoundary(GdsBoundary { layer, datatype: dt, xy: pts.iter().map(|p| GdsPoint::new(p.0 + ox, p.1 + oy)).collect(), ..Default::default() }));
